@@ -66,6 +66,10 @@ func c03Run(c *Ctx) {
 		c03Shared(c)
 		return
 	}
+	if c.Idx%512 == 37 && !(c.Tier == "thorough" && c.Idx < c03ExhaustiveCount()) {
+		c03KeyCollisions(c)
+		return
+	}
 	var op string
 	var dt ref.DType
 	var sa, sb []int
@@ -245,4 +249,32 @@ func c03Known(req mon.OpReq, exp Expect, o mon.Outcome, v Verdict) string {
 		return ""
 	}
 	return "Div:float-division-by-zero-gives-plus-inf"
+}
+
+// c03KeyCollisions: two operator calls in a row whose shape pairs coincide under the common weak
+// memo keys (see weakKeySeqs in c14.go): what an operator answers for a pair of shapes may not
+// depend on the pairs some operator answered earlier in the process.
+func c03KeyCollisions(c *Ctx) {
+	seqs := weakKeySeqs(2 + int((uint64(c.Seed)+uint64(c.Idx/512))%7))
+	ops13 := []string{"Add", "Sub", "Mul", "Div", "Less", "Greater", "Equal", "LessOrEqual", "GreaterOrEqual"}
+	for k := 0; k < 6; k++ {
+		s := seqs[(c.Idx/512*6+k)%len(seqs)]
+		for _, p := range s {
+			op := ops13[c.R.Intn(len(ops13))]
+			a := c.R.Tensor(ref.F32, p.a, gen.FillSmall, 50)
+			b := c.R.Tensor(ref.F32, p.b, gen.FillSmall, 50)
+			if op == "Div" {
+				op = "Add"
+			}
+			req := mon.OpReq{Op: op, Inputs: []*ref.T{a, b}}
+			c.SetCase("%s", req.Describe())
+			exp, skip := c03Expect(op, a, b)
+			if skip != "" {
+				continue
+			}
+			c.Nontrivial(fmt.Sprintf("weak-key|%s|%v|%v", op, p.a, p.b))
+			c.Count("weak-key-collision-pairs", 1)
+			CheckOp(c, req, exp, false, mon.ModelOpts{}, c03Known)
+		}
+	}
 }
